@@ -1720,15 +1720,18 @@ def run_scenario(seed, shard, idx, tier):
     # SIGINT while the tool runs (every sixth scenario): the run may end
     # non-zero, or finish with the very same answer -- never "succeed" with
     # another one (a load aborted by Ctrl-C must not be taken for a document)
-    if idx % 6 == 0 and "file" in runs:
+    if (idx // len(TOOLS)) % 6 == 0 and "file" in runs:
         recipe, ctx = runs["file"]
         base = driver.execute(recipe, count_lines=True)
         stats["runs"] += 1
-        for _ in range(2 if tier == "quick" else 8):
+        for num in range(3 if tier == "quick" else 9):
             if base.lines <= 0:
                 break
-            plan = {"kind": "interrupt", "step": rng.randrange(base.lines),
-                    "arg": None}
+            line = driver.sample_load_phase_line(rng, base) \
+                if num % 3 else None
+            plan = {"kind": "interrupt",
+                    "step": line if line is not None
+                    else rng.randrange(base.lines), "arg": None}
             res = driver.execute(recipe, [plan])
             stats["runs"] += 1
             stats["steps"] += res.steps
